@@ -233,6 +233,7 @@ pub enum Op {
     ScDecKey,          // [sk, ct] -> [dk]
     DkDecrypt,         // [dk, ct] -> [flag, msg?]
     ScShare,           // [ct, skshare] -> [dshare]
+    ScShareTrait,      // [ct, skshare] -> [id(1) || value bytes]   the trait-level BlsSignCrypt::create_decryption_share
     DShareVerify,      // [dshare, pkshare, ct] -> []
     ScDecryptShares,   // [ct, dshare..] -> [flag, msg?]
     DkFromShares,      // [dshare..] -> [dk]
